@@ -1,1 +1,16 @@
 import BddVerif.Props.C16
+#print axioms B.Props.C16.valid_name_iff
+#print axioms B.Props.C16.forbidden_covers_grammar
+#print axioms B.Props.C16.name_index_bijection
+#print axioms B.Props.C16.name_round_trips
+#print axioms B.Props.C16.anonymous_set
+#print axioms B.Props.C16.constant_spec
+#print axioms B.Props.C16.literal_spec
+#print axioms B.Props.C16.literal_by_name_spec
+#print axioms B.Props.C16.valuation_bdd_spec
+#print axioms B.Props.C16.sat_exactly_k_canon
+#print axioms B.Props.C16.sat_up_to_k_canon
+#print axioms B.Props.C16.sat_exactly_k_spec
+#print axioms B.Props.C16.sat_up_to_k_spec
+#print axioms B.Props.C16.sat_list_as_set
+#print axioms B.Props.C16.sat_out_of_range
